@@ -50,6 +50,8 @@ def head(t):
     kids = []
     if t[0] in ("arr", "farr", "opt"):
         kids = [t[1]]
+    elif t[0] == "either":
+        kids = [t[1], t[2]]
     elif t[0] == "tup":
         kids = t[2]
     elif t[0] == "rec":
@@ -145,15 +147,19 @@ def run(ctx):
             groups.setdefault(key, []).append({"t": rec["t"], "text": o.get("text"), "detail": detail})
     # drops
     affine = [i for i, r in enumerate(recs) if r["wf"] and r["drop"] and not r["cop"]]
-    n = len(affine) if tiny else ctx.pick(140, 2500)
+    n = len(affine) if tiny else ctx.pick(110, 2500)
     rng.shuffle(affine)
-    chosen = sorted(affine[:n])
+    # sums whose droppable-but-not-copyable part sits in the first variant (and nested sums) are
+    # always part of the sample: quick 40 of them, thorough all
+    sums = [i for i in affine if recs[i]["sumfirst"]]
+    chosen = sorted(set(affine[:n]) | set(sums[: (len(sums) if tiny else ctx.pick(40, len(sums)))]))
     jobs = drop_jobs(recs, chosen)
     res = pool.map_jobs(tc.drop_job, jobs)
-    ndrops = 0
+    ndrops = nsumfirst = 0
     for j, r in zip(jobs, res):
         rec = recs[j["id"][0]]
         ndrops += len(r.get("drops", []))
+        nsumfirst += bool(rec["sumfirst"] and r.get("drops"))
         v = judge_drop(rec, j, r)
         if v is not None:
             groups.setdefault(v[0], []).append({"t": rec["t"], "ctx": j["ctx"], "detail": v[1]})
@@ -161,8 +167,8 @@ def run(ctx):
         ctx.violation(key, f"{len(cases)} type(s), e.g. {cases[0].get('text') or json.dumps(cases[0]['t'])}: "
                            f"{json.dumps(cases[0]['detail'])[:500]}",
                       {"cases": cases[:10]})
-    if counts["affine"] == 0 or counts["linear"] == 0 or counts["ill_formed"] == 0 or ndrops == 0:
-        raise lib.Machinery(f"vacuous enumeration: {counts}, drops seen {ndrops}")
+    if counts["affine"] == 0 or counts["linear"] == 0 or counts["ill_formed"] == 0 or ndrops == 0 or nsumfirst == 0:
+        raise lib.Machinery(f"vacuous enumeration: {counts}, drops seen {ndrops}, on first-variant sums {nsumfirst}")
     nontrivial = sum(1 for r in recs if r["t"][0] in ("tup", "rec", "st", "arr", "farr", "opt", "fn"))
     ctx.coverage.update({
         "traces_validated_against_impl": len(recs) + len(jobs),
@@ -174,6 +180,8 @@ def run(ctx):
                     for i in chosen[:3]],
         "exhaustive": True,
         "types": len(recs), "classes": counts, "drop_programs": len(jobs), "drop_ops_seen": ndrops,
+        "drop_programs_sum_with_affine_first_variant": nsumfirst,
+        "either_types": sum(1 for r in recs if '"either"' in json.dumps(r["t"])),
     })
     ctx.assumptions += ["TLC", "hugr-core validator", "term -> annotation text renderer and Type -> term projection "
                         "(harness/talg_terms.py); the projection of every parsed type is compared with the "
